@@ -81,7 +81,9 @@ def monitor_records(spec, sem, result):
         elif e["ev"] == "JobSubmitted":
             out.append(rec(ev="JobSubmitted", job=e["job"], kind=e.get("md", "")))
         elif e["ev"] == "JournalWrite" and "md" in e:
-            out.append(rec(ev="JournalWrite", job=e["job"], kind=e["md"], txt=e["file"]))
+            # a job that survived its mrp writes as the attempt the restarted mrp has replaced
+            who = ("the superseded attempt in " + e["md"]) if "#orphan" in e["job"] else e["md"]
+            out.append(rec(ev="JournalWrite", job=e["job"], kind=who, txt=e["file"]))
         elif e["ev"] == "JournalSeen":
             # the sentinel the entry announces (what mrp will cache when it routes it)
             st = e["file"].rsplit(".", 1)[-1]
